@@ -7,6 +7,8 @@ C17.b type partition: entries are inserted into and looked up from the bucket of
   pack from the same bucket.
 C17.c only unmarked packs feed an index (shared with C10.a).
 C17.d totals: total_size grows by the pack size once per extended pack.
+C17.g checked / repaired index: PackChecker::check_pack strikes every listed pack (marked for deletion or not) off the set of
+  existing-but-unindexed packs, in every loop iteration - otherwise marked packs are re-read and indexed as live.
 C17.f an unreadable index file fails the construction of the index (no partial index): items of stream_all are
   propagated (R-ERRITER item rule, shared with C05.f).
 C17.e reduced modes: Ids answers has() but never get_id(); None answers neither.
@@ -281,6 +283,23 @@ def run(ctx, rep):
         okt = len(reads) == 1 and len(idx) == 1 and 2 in flow.backward_slice(TS, op_place(idx[0][1]["args"][1]))["args"] and not any(s_[2][0] == "bin" for blk in TS.blocks for s_ in blk["s"] if s_[0] == "=")
         rep.check("C17.d", "total-size-per-type", okt, where=TS.loc(), what="total_size(type) returns the total of exactly the requested type's bucket" if okt else
                   "total_size(type) does not return exactly the requested type's bucket total (mixes types or ignores its argument)")
+    # ---- C17.g: the checked / repaired index never takes a LISTED pack for an unlisted one ----------------------------
+    rep.rule("C17.g", "every pack listed in an index file (marked for deletion or not) is struck off the 'existing but unindexed' candidates")
+    PC = prog.find1(r"^rustic_core::commands::repair::index::PackChecker::check_pack$")
+    rms = [bb for bb, t in PC.calls() if "callee" in t and re.search(r"(BTreeMap|HashMap)<.*>::remove$|::remove$", callee(t)) and t["args"] and op_place(t["args"][0]) and "packs" in flow.backward_slice(PC, op_place(t["args"][0]))["fields"]
+           and "packs_to_read" not in flow.backward_slice(PC, op_place(t["args"][0]))["fields"]]
+    byh = {}
+    for (l_, h_) in C.back_edges(PC):
+        byh.setdefault(h_, set()).update(C.loop_blocks(PC, h_, l_))
+    lp = sorted([(len(bl), h_, bl) for h_, bl in byh.items() if rms and all(r_ in bl for r_ in rms)])
+    okg_ = False
+    if rms and lp:
+        _, h0, bl0 = lp[0]
+        latches = [l_ for (l_, h_) in C.back_edges(PC) if h_ == h0]
+        # from the loop header, with the remove call(s) cut, no latch is reachable: every iteration strikes its pack off
+        okg_ = not any(l_ in PC.reachable_from(h0, cut_blocks=rms) for l_ in latches if l_ not in rms)
+    rep.check("C17.g", "listed-pack-never-unindexed", okg_, where=PC.loc(), what="PackChecker::check_pack removes every listed pack (marked or not) from the set of existing packs that still need indexing" if okg_ else
+              "some listed packs are not struck off the 'existing but not indexed' set (e.g. packs marked for deletion): their headers are re-read and they re-enter the index as live packs - lookups find blobs that exist only in marked packs")
     # ---- C17.f ------------------------------------------------------------------------------------
     from rules import errprop
     errprop.run_iter(ctx, rep, "C17.f")
